@@ -219,6 +219,10 @@ type Raft struct {
 	// last included index.
 	snapshotting bool
 
+	// Indicates that the state machine is being restored from an installed snapshot
+	// and that the log has not been replaced yet.
+	restoring bool
+
 	wg sync.WaitGroup
 
 	mu sync.Mutex
@@ -853,6 +857,14 @@ func (r *Raft) AppendEntries(request *AppendEntriesRequest, response *AppendEntr
 		r.becomeFollower(request.LeaderID, request.Term)
 	}
 
+	// Reject the request if a snapshot is being installed and the log has not been replaced yet.
+	// The log may still contain entries that conflict with the snapshot.
+	if r.restoring {
+		r.logger.Debugf("AppendEntries RPC rejected: reason = snapshot installation in progress")
+		response.Index = r.lastIncludedIndex + 1
+		return nil
+	}
+
 	// Reject the request if the log has been compacted and no longer contains the previous log entry.
 	if r.lastIncludedIndex > request.PrevLogIndex {
 		r.logger.Debugf(
@@ -1478,6 +1490,7 @@ func (r *Raft) InstallSnapshot(
 
 	// Restore the state machine with the snapshot.
 	// This could take a while so it's probably best that the lock is released.
+	r.restoring = true
 	r.mu.Unlock()
 	r.logger.Warnf(
 		"restoring state machine with snapshot: lastIndex = %d, lastTerm = %d",
@@ -1492,6 +1505,7 @@ func (r *Raft) InstallSnapshot(
 	}
 	r.mu.Lock()
 	defer r.resumeApply()
+	defer func() { r.restoring = false }()
 
 	if r.state == Shutdown {
 		return nil
